@@ -22,6 +22,7 @@ Directive syntax inside a template (`verus/units/<unit>.rs.in`):
 
 What extraction changes (exhaustive; also recorded per function in the report):
   * the named return `-> T` becomes `-> (ret: T)` when ret= is given;
+  * rename=<ident> renames the extracted fn (several files define `write`; obligations are named per fn);
   * spec text (`//@|` lines) is inserted at the three kinds of places above;
   * attributes and doc comments in front of the fn are not copied;
   * statements named by //@drop are removed (logging macros only);
@@ -278,7 +279,7 @@ class Expander:
         origs.append(S.text[cursor:end])
         assert "".join(origs) == S.text[bo:end], "verbatim re-check failed"
         text = sig + "\n" + "\n".join("    " + x for x in sig_spec) + "\n" + "".join(pieces) + "\n"
-        self._rec(S, rel, name, impl, start, end, n_loops, dropped=[norm(S.text[a:b2]) for (a, b2) in dels])
+        self._rec(S, rel, kv.get("rename", name), impl, start, end, n_loops, dropped=[norm(S.text[a:b2]) for (a, b2) in dels])
         return text
 
     def _rec(self, S, rel, name, impl, start, end, n_loops, external=False, dropped=()):
